@@ -1,8 +1,10 @@
 //! Conformance harness for the llfree TLA+ specifications (see /verif/DESIGN.md).
 mod conc;
 mod hook;
+mod sat;
 mod seq;
 mod world;
+mod zone;
 
 use std::collections::HashMap;
 use std::io::Write;
@@ -123,6 +125,32 @@ fn main() {
             }
             write_out(&m, &props, &out.lines);
             println!("{}", serde_json::Value::Array(summary));
+        }
+        "rows" => {
+            let mut out = seq::Out::new();
+            sat::rowsearch(&mut out, seed, geti(&m, "part", 0), geti(&m, "parts", 1), geti(&m, "rand", 500));
+            write_out(&m, &props, &out.lines);
+        }
+        "sortbuf" => {
+            let mut out = seq::Out::new();
+            sat::sortbuf(&mut out, seed, geti(&m, "maxlen", 5), geti(&m, "dom", 4) as u8,
+                geti(&m, "part", 0), geti(&m, "parts", 1), geti(&m, "rand", 500));
+            write_out(&m, &props, &out.lines);
+        }
+        "treesearch" => {
+            let mut out = seq::Out::new();
+            sat::treesearch(&mut out, seed, geti(&m, "runs", 500));
+            write_out(&m, &props, &out.lines);
+        }
+        "lower" => {
+            let mut out = seq::Out::new();
+            sat::lower_runs(&mut out, seed, geti(&m, "runs", 20));
+            write_out(&m, &props, &out.lines);
+        }
+        "zone" => {
+            let mut out = seq::Out::new();
+            zone::zone_runs(&mut out, seed, geti(&m, "runs", 6), geti(&m, "len", 60));
+            write_out(&m, &props, &out.lines);
         }
         "crashseq" => {
             // random single-thread programs, a crash probe before every write to the lower metadata
